@@ -2,7 +2,7 @@ package assign
 
 import (
 	"fmt"
-	"math"
+	"math/bits"
 
 	"github.com/pkg/errors"
 	"github.com/ysugimoto/falco/v2/interpreter/value"
@@ -19,13 +19,11 @@ func LeftRotate(left, right value.Value) error {
 	}
 	lv := value.Unwrap[*value.Integer](left)
 	rv := value.Unwrap[*value.Integer](right)
-	v := (lv.Value << rv.Value) | (lv.Value >> (64 - rv.Value))
-	if int64(v) > int64(math.MaxInt64) {
-		lv.Value = 0
-		lv.IsPositiveInf = true
-	} else {
-		lv.Value = v
+	if rv.Value < 0 {
+		return errors.WithStack(fmt.Errorf("negative rotate count %d for rotate-left operator", rv.Value))
 	}
+	// rotate the 64-bit pattern; the count is taken modulo 64
+	lv.Value = int64(bits.RotateLeft64(uint64(lv.Value), int(rv.Value%64)))
 	return nil
 }
 
@@ -40,12 +38,10 @@ func RightRotate(left, right value.Value) error {
 	}
 	lv := value.Unwrap[*value.Integer](left)
 	rv := value.Unwrap[*value.Integer](right)
-	v := (lv.Value >> rv.Value) | (lv.Value << (64 - rv.Value))
-	if int64(v) > int64(math.MaxInt64) {
-		lv.Value = 0
-		lv.IsPositiveInf = true
-	} else {
-		lv.Value = v
+	if rv.Value < 0 {
+		return errors.WithStack(fmt.Errorf("negative rotate count %d for rotate-right operator", rv.Value))
 	}
+	// rotate the 64-bit pattern; the count is taken modulo 64
+	lv.Value = int64(bits.RotateLeft64(uint64(lv.Value), -int(rv.Value%64)))
 	return nil
 }
